@@ -149,6 +149,14 @@ func checkParsed(root ast.Vertex) string {
 	if m := compareWalk(root); m != "" {
 		return m
 	}
+	// the tree a user holds after the library's own visitor went over it (name resolution, run through the
+	// traverser the documented way) is still that parsed tree: the same clauses once more
+	if p := px.Guard(func() { px.Resolve(root) }); p != "" {
+		return "" // C13 / C14 look at the resolver itself
+	}
+	if m := compareWalk(root); m != "" {
+		return "after a traversal with the name resolver as visitor: " + m
+	}
 	return ""
 }
 
